@@ -129,9 +129,15 @@ func (e *Engine) heapTerm(st *State, name, sort string) string {
 	}
 	e.heapSorts[name] = sort
 	init := name + "@" + st.epoch
-	if !e.ctx.decls[init] {
+	if !e.ctx.decls["wf:"+init] {
 		e.ctx.Global(init, fmt.Sprintf("(declare-fun %s () %s)", init, sort))
+		if e.dry == 0 {
+			e.ctx.decls["wf:"+init] = true
+		}
 		// heap well-formedness: every reference stored in the heap denotes an allocated object
+		if isGhostLen(name) {
+			e.ctx.Assume(fmt.Sprintf("(forall ((r Int)) (! (<= 0 (select %s r)) :pattern ((select %s r))))", init, init))
+		}
 		if strings.HasSuffix(name, ".ref") || strings.HasSuffix(name, ".val") || refHeaps[name] {
 			switch sort {
 			case "(Array Int Int)":
@@ -167,6 +173,11 @@ func fieldPathType(t types.Type, path []int) (types.Type, string) {
 
 func heapName(structT types.Type, fieldPath string, suffix string) string {
 	return "H$" + typeKey(structT) + sanitize(fieldPath+suffix)
+}
+
+// isGhostLen: the length component of a ghost sequence field (never negative)
+func isGhostLen(name string) bool {
+	return strings.HasPrefix(name, "G$") && strings.HasSuffix(name, "$len")
 }
 
 // refHeaps: heap arrays whose values are object references (pointer, map, chan fields)
@@ -622,6 +633,9 @@ func (e *Engine) havoc(st *State, w *WriteSet, hint string) {
 		hw := w.heap[k]
 		if hw.whole {
 			st.heap[k] = e.ctx.Declare(hint+"$"+k, srt)
+			if isGhostLen(k) {
+				e.ctx.Assume(fmt.Sprintf("(forall ((r Int)) (! (<= 0 (select %s r)) :pattern ((select %s r))))", st.heap[k], st.heap[k]))
+			}
 			e.record(func(w *WriteSet) { w.addHeap(k, "") })
 			continue
 		}
@@ -633,7 +647,11 @@ func (e *Engine) havoc(st *State, w *WriteSet, hint string) {
 		sort.Strings(refs)
 		cur := e.heapTerm(st, k, srt)
 		for _, r := range refs {
-			cur = sx("store", cur, r, e.ctx.Declare(hint+"$"+k, inner))
+			fv := e.ctx.Declare(hint+"$"+k, inner)
+			if isGhostLen(k) {
+				e.ctx.Assume(sx("<=", "0", fv))
+			}
+			cur = sx("store", cur, r, fv)
 			r := r
 			e.record(func(w *WriteSet) { w.addHeap(k, r) })
 		}
